@@ -264,10 +264,11 @@ func (p *nriPlugin) Synchronize(ctx context.Context, pods []*api.PodSandbox, con
 		p.dump(out, event, updates, retErr)
 	}()
 
+	m := p.resmgr
+	m.Lock()
+	defer m.Unlock()
 	b := metrics.Block()
 	defer b.Done()
-
-	m := p.resmgr
 
 	allocated, released, err := p.syncWithNRI(pods, containers)
 	if err != nil {
@@ -328,8 +329,8 @@ func (p *nriPlugin) StopPodSandbox(ctx context.Context, podSandbox *api.PodSandb
 	}()
 
 	m := p.resmgr
-
-	// TODO(klihub): shouldn't we m.Lock()/defer m.Unlock() here?
+	m.Lock()
+	defer m.Unlock()
 	b := metrics.Block()
 	defer b.Done()
 
@@ -368,6 +369,10 @@ func (p *nriPlugin) RemovePodSandbox(ctx context.Context, podSandbox *api.PodSan
 	}()
 
 	m := p.resmgr
+	m.Lock()
+	defer m.Unlock()
+	b := metrics.Block()
+	defer b.Done()
 
 	pod, _ := m.cache.LookupPod(podSandbox.GetId())
 	released := slices.Clone(pod.GetContainers())
@@ -377,11 +382,6 @@ func (p *nriPlugin) RemovePodSandbox(ctx context.Context, podSandbox *api.PodSan
 		nri.Error("%s: failed to run post-release hooks for pod %s: %v",
 			event, pod.GetName(), err)
 	}
-
-	m.Lock()
-	defer m.Unlock()
-	b := metrics.Block()
-	defer b.Done()
 
 	m.cache.DeletePod(podSandbox.GetId())
 	return nil
